@@ -175,7 +175,15 @@ def run_rewrite(prop, tier, tag):
         violations.append((path, f"{j['kind']} after {s['rules']}: {s['_src'].strip().splitlines()[-2][:160]}"))
     cov = {"rewrite_model_states": gst["distinct"], "rewrite_programs": len(states), "rewrite_depth": gst["depth"],
            "rewrite_classes": NSEEDS, "rewrite_trace_lines": consumed, "rewrite_binding_selftest": neg,
-           "rules": sorted({x for s in states for x in s["rules"]})}
+           "rules": sorted({x for s in states for x in s["rules"]}),
+           # vacuity guard: how many programs each rule produced, and how many of them differ textually from their seed
+           "programs_per_rule": {r: sum(1 for s in states if s["steps"] and s["rule"] == r) for r in sorted({s["rule"] for s in states if s["steps"]})}}
+    seed_src = {s["seed"]: s["_src"] for s in states if s["steps"] == 0}
+    step1 = [s for s in states if s["steps"] == 1]
+    same_text = sorted(r for r in {s["rule"] for s in step1}
+                       if all(s["_src"] == seed_src.get(s["seed"]) for s in step1 if s["rule"] == r))
+    if same_text:
+        raise ToolError(f"vacuous rewrite rules (the rendered program is identical to its seed): {same_text}")
     cov["known_findings_hit"] = sorted({k for k, _ in known_hits})
     return violations, known_hits, cov, gst, consumed, tstates, states
 
@@ -190,7 +198,7 @@ def run(prop, tier):
                for s in states if s["steps"] == 0][:3]
     cov.update({"states": gst["distinct"] + tstates, "transitions": gst["states"] + consumed,
                 "traces_validated_against_impl": consumed, "samples": samples, "exhaustive": tier == "quick",
-                "rule": "all programs reachable from each of the {NSEEDS} seeds by <= MaxSteps rewrites (TLC breadth first); observables "
+                "rule": f"all programs reachable from each of the {NSEEDS} seeds by <= MaxSteps rewrites (TLC breadth first); observables "
                         "= validate vector (default + strict) over the seed's probes + common pool, hash256, hash"})
     vlib.write_evidence(prop, tier, cov, time.time() - t0, len(violations),
                         ["Rewrite.tla's rules are my transcription of 'meaning-preserving'; TLC checks each preserves BeffSem membership",
